@@ -50,7 +50,7 @@ def build(loci0, bg0, variant):
     if rng.random() < 0.3:                  # an input locus that is not usable (N-heavy): masks its tile, adds nothing to the histogram
         blocks.append([dict(kind="badlocus", gc=1, n=3, sig="locus"), dict(kind="dead", gc=0, n=W, sig="low")])
     rng.shuffle(blocks)
-    nchrom = 1 if len(blocks) < 4 or rng.random() < 0.5 else 2
+    nchrom = 1 if len(blocks) < 4 or rng.random() < 0.4 else rng.choice([2, 3, 3, 4][:max(1, min(4, len(blocks) // 2))])
     chroms = [[] for _ in range(nchrom)]
     for k, blk in enumerate(blocks):
         chroms[k % nchrom] += blk
@@ -144,7 +144,7 @@ def run_case(loci0, bg0, variant):
         return ev
     try:
         outs = []
-        for nj in (1, 2):
+        for nj in (1, 2 if len(g["names"]) < 4 or variant % 2 else 3):
             r = extract_matching_loci(df, fa, in_window=W, out_window=g["outw"], max_n_perc=MAX_N, gc_bin_width=BINW, bigwig=bwp,
                                       signal_beta=0.5, chroms=list(g["names"]), random_state=variant, n_jobs=nj)
             outs.append([[g["names"].index(c), int(s), int(e)] for c, s, e in zip(r["chrom"], r["start"], r["end"])])
